@@ -131,7 +131,7 @@ func VerifH_C13_InspectVsScanV2() {
 	pad := 3 * vChoose("pad", 2)
 	var idx []byte
 	idxOff := uint64(0)
-	idxKind := vChoose("indexKind", 4)
+	idxKind := vChoose("indexKind", 5)
 	switch idxKind {
 	case 1:
 		idx = []byte{0x80, 0x08, 0, 0, 0, 0} // car-index-sorted, no buckets
@@ -139,6 +139,8 @@ func VerifH_C13_InspectVsScanV2() {
 		idx = []byte{0x81, 0x08, 0, 0, 0, 0} // car-multihash-index-sorted, no buckets
 	case 3:
 		idx = []byte{0x80} // truncated codec varint
+	case 4:
+		idx = nil // the header claims an index but the file ends at the index offset
 	}
 	if idxKind != 0 {
 		idxOff = uint64(51 + pad + len(payload))
@@ -149,7 +151,7 @@ func VerifH_C13_InspectVsScanV2() {
 	rd, err := NewReader(&vReaderAt{data: file}, opts...)
 	vAssert("reader-opens", err == nil)
 	st, ierr := rd.Inspect(true)
-	wantOK := scan.ok && idxKind != 3
+	wantOK := scan.ok && idxKind != 3 && idxKind != 4
 	vAssert("inspect-ok-iff-scan-ok-and-codec-readable", (ierr == nil) == wantOK)
 	if ierr == nil {
 		vAssert("version", st.Version == 2)
@@ -166,4 +168,5 @@ func VerifH_C13_InspectVsScanV2() {
 		vCover("v2-indexed", idxKind == 2)
 	}
 	vCover("v2-unreadable-codec-rejected", idxKind == 3 && ierr != nil && scan.ok)
+	vCover("v2-missing-index-rejected", idxKind == 4 && ierr != nil && scan.ok)
 }
